@@ -35,6 +35,16 @@ def _worker(args):
     # hard stop for a job that neither finishes nor reaches the budget check (deadlock, runaway solver call): the worker
     # process exits, the pool reports it and the job is retried / reported inconclusive
     faulthandler.dump_traceback_later(budget + 420, exit=True)
+    import signal
+
+    def _alarm(signum, frame):
+        raise Inconclusive(f"job wall budget of {int(budget)} s exhausted inside a path")
+
+    try:
+        signal.signal(signal.SIGALRM, _alarm)
+        signal.alarm(int(budget + 45))
+    except ValueError:
+        pass  # not in the main thread of the process
     res = {"job": job, "violations": _Capped(), "witnesses": [], "inconclusive": [], "notes": [], "obligations": 0}
     try:
         mod.run_job(job, res)
@@ -45,6 +55,10 @@ def _worker(args):
     except Exception as e:  # noqa: BLE001
         res["inconclusive"].append(f"harness error {type(e).__name__}: {_msg(e)} @ {_where(e)}")
     faulthandler.cancel_dump_traceback_later()
+    try:
+        signal.alarm(0)
+    except ValueError:
+        pass
     res["violations"] = list(res["violations"])
     res["stats"] = dict(rt.ctx.stats)
     res["functions"] = sorted(rt.ctx.entered)
